@@ -15,6 +15,10 @@ from harness import screens as S
 
 common.use_repo_sources()
 
+import logging
+
+logging.getLogger("batchie").setLevel(logging.ERROR)     # "Could not create single treatment effects array." on every None
+
 RULE = ("random screens (1-14 rows quick / 1-30 thorough, arity 1-3, small name/dose/sample pools so that conditions repeat, plate-uniform "
         "masks) x random expression trees (depth <= 4 quick / <= 8 thorough) over subset / observed / unobserved / plate / nested subset / "
         "invert / combine / concat(k=0..4) / unique filter / foreign-screen leaves, masks empty, full, random; every subtree is sent to the model. "
@@ -720,6 +724,42 @@ def gen_screen(rng, n_max):
     return raw
 
 
+def extras(E, raw, res, case, toks, queue, do_unique, do_plates):
+    """checks next to the tree: the unique filter applied to the screen itself, and the screen's plates"""
+    from batchie.data import filter_dataset_to_unique_treatments
+    # the unique filter applied to the screen itself (Screen.subset path)
+    if do_unique:
+        try:
+            full = [True] * len(raw["snames"])
+            w = filter_dataset_to_unique_treatments(E.screen)
+            E.check_view(["q"], w, None)
+            E.check_unique(full, w)
+            if queue is not None:
+                queue("vexpr S%s+q %s" % (S.sel_tok(full), toks), show_view(w), case)
+            res.count("unique-filter-on-screen")
+        except Exception as e:          # noqa: BLE001
+            res.fail("filter_dataset_to_unique_treatments(screen) raises", case, "%s: %s" % (type(e).__name__, e), "a view")
+    # plates: one view per unique plate id, in id order, partitioning the rows
+    if do_plates:
+        try:
+            s = E.screen
+            pl = s.plates
+            ids = sorted(set(int(x) for x in s.plate_ids))
+            cover = [0] * len(raw["snames"])
+            if len(pl) != len(ids):
+                res.fail("plates does not list one plate per plate id", case, len(pl), len(ids))
+            for p, pid in zip(pl, ids):
+                E.check_view(["p", pid], p, [x == pid for x in E.parent["plate_ids"]])
+                for i, b in enumerate(p.selection_vector):
+                    cover[i] += bool(b)
+                if queue is not None:
+                    queue("vexpr p%d %s" % (pid, toks), show_view(p), case)
+            if any(c != 1 for c in cover):
+                res.fail("plates do not partition the experiments", case, cover, "every row in exactly one plate")
+        except Exception as e:          # noqa: BLE001
+            res.fail("plates raises", case, "%s: %s" % (type(e).__name__, e), "list of plates")
+
+
 def run(ctx, res):
     res.rule = RULE
     rng = ctx.subrng("c14")
@@ -780,36 +820,7 @@ def run(ctx, res):
                 E.check_alias("to_screen")
         if rng.random() < 0.01:
             res.sample({"tree": S.lst(rpn(tree), "+"), "rows": len(raw["snames"]), "impl": (err or E.nodes[-1][1])[:200]})
-        # the unique filter applied to the screen itself (Screen.subset path)
-        if t % 4 == 1:
-            from batchie.data import filter_dataset_to_unique_treatments
-            try:
-                full = [True] * len(raw["snames"])
-                w = filter_dataset_to_unique_treatments(E.screen)
-                E.check_view(["q"], w, None)
-                E.check_unique(full, w)
-                queue("vexpr S%s+q %s" % (S.sel_tok(full), toks), show_view(w), case)
-                res.count("unique-filter-on-screen")
-            except Exception as e:          # noqa: BLE001
-                res.fail("filter_dataset_to_unique_treatments(screen) raises", case, "%s: %s" % (type(e).__name__, e), "a view")
-        # plates: one view per unique plate id, in id order, partitioning the rows
-        if t % 4 == 0:
-            try:
-                s = E.screen
-                pl = s.plates
-                ids = sorted(set(int(x) for x in s.plate_ids))
-                cover = [0] * len(raw["snames"])
-                if len(pl) != len(ids):
-                    res.fail("plates does not list one plate per plate id", case, len(pl), len(ids))
-                for p, pid in zip(pl, ids):
-                    E.check_view(["p", pid], p, [x == pid for x in E.parent["plate_ids"]])
-                    for i, b in enumerate(p.selection_vector):
-                        cover[i] += bool(b)
-                    queue("vexpr p%d %s" % (pid, toks), show_view(p), case)
-                if any(c != 1 for c in cover):
-                    res.fail("plates do not partition the experiments", case, cover, "every row in exactly one plate")
-            except Exception as e:          # noqa: BLE001
-                res.fail("plates raises", case, "%s: %s" % (type(e).__name__, e), "list of plates")
+        extras(E, raw, res, case, toks, queue, do_unique=(t % 4 == 1), do_plates=(t % 4 == 0))
     unique_direct(ctx, res, ctx.subrng("c14", "uniq"), queue)
     if ctx.driver is not None:
         got = ctx.driver.ask(lines)
@@ -838,3 +849,4 @@ def replay(ctx, case, res):
             res.fail("to_screen() of a view of a valid screen raises", case, "%s: %s" % (type(e).__name__, e), "a screen",
                      signature="C14:to_screen:raises")
         E.check_alias("to_screen")
+    extras(E, case["raw"], res, case, None, None, True, True)
